@@ -36,7 +36,7 @@ REQUIRED_MONITORS = ["increasing", "inside_limits", "inside_support", "weights_f
 REQUIRED_BUCKETS = {
     "quick": ["type:gaussian", "type:lognormal", "type:schulz", "type:boltzmann", "type:uniform",
               "type:rectangle", "cut:none", "cut:lower", "cut:upper", "cut:both", "relative", "absolute",
-              "degenerate:zero_width", "degenerate:npts<2", "layer:get_mesh", "layer:sasview", "layer:shared-name-sequence",
+              "degenerate:zero_width", "degenerate:npts<2", "layer:get_mesh", "layer:sasview", "layer:shared-name-sequence", "layer:set_dispersion-shared-object",
               "partype:volume", "partype:orientation"],
 }
 REQUIRED_BUCKETS["thorough"] = REQUIRED_BUCKETS["quick"]
@@ -401,6 +401,39 @@ def run_layer(case, rec):
                    "points": pts})
         rec.bucket("layer:sasview")
         rec.set_shape((name, p.name, "sasview"), True)
+    # --- one disperser object handed to set_dispersion for several parameters / instances, then one of them edited
+    pdp = [p for p in info.parameters.call_parameters if p.polydisperse and p.relative_pd
+           and np.isfinite(p.default) and p.default > 0 and p.limits[0] <= 0 and not np.isfinite(p.limits[1])]
+    if len(pdp) >= 1:
+        d = weights.MODELS["gaussian"](11, 0.1, 2.0) if hasattr(weights, "MODELS") else weights.GaussianDispersion(11, 0.1, 2.0)
+        m1, m2 = Model(), Model()
+        pa = pdp[0]
+        pb = pdp[1] if len(pdp) > 1 else pdp[0]
+        m1.set_dispersion(pa.name, d)
+        if pb is not pa:
+            m1.set_dispersion(pb.name, d)
+        m2.set_dispersion(pa.name, d)
+        # edit the other holders of that disperser's settings
+        if pb is not pa:
+            m1.setParam(pb.name + ".width", 0.3)
+            m1.setParam(pb.name + ".npts", 5)
+            m1.setParam(pb.name + ".nsigmas", 1.5)
+        m2.setParam(pa.name + ".width", 0.27)
+        m2.setParam(pa.name + ".npts", 7)
+        va = float(pa.default)
+        m1.setParam(pa.name, va)
+        _state["current"] = rec
+        try:
+            val, pts, wts = m1._get_weights(pa)
+            exp_v, exp_w = weights.get_weights("gaussian", 11, 0.1, 2.0, va, pa.limits, True)
+        finally:
+            _state["current"] = None
+        rec.check("mesh_is_get_weights_for_this_parameter",
+                  np.array_equal(np.asarray(pts), exp_v) and np.array_equal(np.asarray(wts), exp_w),
+                  {"model": name, "parameter": pa.name, "via": "SasviewModel.set_dispersion with one disperser object shared "
+                   "by %s and a second instance, the others edited afterwards" % pb.name,
+                   "points": np.asarray(pts)[:8], "expected_points": exp_v[:8], "npoints": [len(pts), len(exp_v)]})
+        rec.bucket("layer:set_dispersion-shared-object")
     rec.observe(model=name, dispersible=npd)
     if npd == 0:
         rec.set_shape((name, "no dispersible parameter"), False)
